@@ -1,33 +1,32 @@
 /-
   C18 — data plugins are faithful lifts of the functions they wrap.
 
-  (F) `plugins_table`: the `Plugins` table regenerated from the working tree by go/extract matches
-      the hand-maintained expectation row by row (lift kind, wrapped callee with import path,
-      which parameter at which position, constants) — a row may only be the pinned one or its
-      repaired form. `helpers_agree`: the unexported helpers of plugins/strings and plugins/bytes
-      have the same flavour-erased body, except `ellipsis` and `words` whose bodies are pinned.
+  (F) `plugins_table`: the `Plugins` table regenerated from the working tree by go/extract EQUALS
+      the hand-maintained expectation (lift kind, wrapped callee with import path, which
+      parameter at which position, constants). `helpers_agree`: the unexported helpers of
+      plugins/strings and plugins/bytes have the same flavour-erased body, except `ellipsis` and
+      `words` whose bodies are pinned.
   (a) `lift_map`, `lift_mapErr`, `lift_filter`: for ANY wrapped function, every raw source script,
       both source modes: the delivered stream is the function applied item by item, each result
       with the context of its item, ending at the first error, else with the source's ending.
   (b) modelled functions: base64 (4 encodings) `decode (encode bs) = some bs` for all byte lists;
       `Atoi ∘ Itoa = id` on every 64-bit int (and ErrRange outside: the bound is sharp);
       `ParseBool ∘ FormatBool = id`; `Ellipsis`: string and byte flavour return the same text for
-      every input, the repaired byte helper never writes the caller's array, the pinned one
-      does not write outside the truncating branch (`…_partial`) and provably writes inside it
-      (witness + `ellipsisB_write_in_window`); sort: Go's insertion sort (what sort.Slice runs
-      for ≤ 12 elements) IS the stable sort, any sorted permutation has the same key sequence as
-      the stable sort, `Sort*` machines deliver `sorter(values)` with the terminal's context;
-      readers: concatenation of delivered chunks = bytes produced (no data-with-error reads),
-      repaired reader: for all scripts; witnesses: shared buffer, data lost with EOF.
+      every input and the byte helper never writes the caller's array (slice/heap model); sort:
+      Go's insertion sort (what sort.Slice runs for ≤ 12 elements) IS the stable sort, any
+      sorted permutation has the same key sequence as the stable sort, `Sort*` machines deliver
+      `sorter(values)` with the terminal's context, `SortStableFunc` (sort.SliceStable) delivers
+      the stable sort; `NewIOReader`: for every script of Read results the chunks are the data of
+      the reads (none is touched later), their concatenation is everything produced.
   (c) regexp, templates, JSON, gob, CSV, time, Unicode case mapping are uninterpreted: for those the
       theorem is (a) instantiated by the table row — the plugin adds nothing to the function.
 
-  Deviations of the pinned tree (known findings, each replayed on the real code by the check):
-    SortStableFunc = SortFunc (`sortStableFunc_is_sortFunc_pinned`; unstable above 12 elements);
-    robytes.ellipsis appends in place (`ellipsisB_writes_witness`);
-    robytes.words ranges over bytes where rostrings.words ranges over runes (`words_flavours_differ_pinned`);
-    NewIOReader hands out windows of one buffer (`reader_shared_buffer_witness`) and drops data
-    that arrives together with the error (`reader_eof_data_lost_witness`).
+  History: the deviations found by this slice (SortStableFunc = sort.Slice, robytes.ellipsis appending
+  in place, robytes.words ranging over bytes, NewIOReader handing out windows of one buffer and
+  dropping data that came with an error, Random with a one-rune charset) were repaired in /repo
+  (f5a4b6b, 740a09d, 214bd3e, ef635f4, 5b7f423); the models and the expected table describe the
+  repaired code, the former `…_partial` theorems are full theorems now. Still open: robytes.words
+  on text that is not valid UTF-8 (pinned by the existing tests; flavours differ there).
 -/
 import RoGen.Plugins
 import RoProps.C18Expected
@@ -42,19 +41,12 @@ open Ro Ro.Plugins Ro.PluginFacts
 
 /-! ### (F) the regenerated table -/
 
-/-- generated rows against expected rows, in order: equal, or the repaired form of the same operator -/
-def rowsMatch : List Row → List Row → Bool
-  | [], [] => true
-  | g :: gs, e :: es => (g == e || (g.key == e.key && Expected.repaired.contains g)) && rowsMatch gs es
-  | _, _ => false
-
 /-- nothing the extractor did not recognise (`?…` marks an unknown construct, `.other` an unknown lift) -/
 def rowKnown (r : Row) : Bool := r.lift != .other && !r.unknown
 
-theorem plugins_table : rowsMatch RoGen.Plugins.table Expected.table = true := by decide
+theorem plugins_table : RoGen.Plugins.table = Expected.table := by decide
 
-theorem plugins_rows_recognised : Expected.table.all rowKnown = true ∧ Expected.repaired.all rowKnown = true := by
-  decide
+theorem plugins_rows_recognised : Expected.table.all rowKnown = true := by decide
 
 def helperOf (pkg name : Txt) : Option Helper :=
   RoGen.Plugins.helpers.find? (fun h => h.pkg == pkg && h.name == name)
@@ -72,25 +64,18 @@ theorem helpers_agree :
     helperNames (txt% "strings") = helperNames (txt% "bytes") ∧ (helperNames (txt% "strings")).all helperOk = true := by decide
 
 /-- which helper pairs may differ at all -/
-theorem helper_diffs_only : Expected.helperDiffs.map (·.1) = [txt% "ellipsis", txt% "words", txt% "ellipsis", txt% "words"] := by decide
+theorem helper_diffs_only : Expected.helperDiffs.map (·.1) = [txt% "ellipsis", txt% "words"] := by decide
 
 def bodyOf (t : List Row) (plugin name : Txt) : Option (List Txt) :=
   (t.find? (fun r => r.plugin == plugin && r.name == name)).map (·.body)
 
-/-- witness (F level): on the pinned tree `SortStableFunc` is literally `SortFunc` (sort.Slice) -/
-theorem sortStableFunc_is_sortFunc_pinned :
-    bodyOf Expected.table (txt% "sort") (txt% "SortStableFunc") = bodyOf Expected.table (txt% "sort") (txt% "SortFunc") ∧
+/-- `SortStableFunc` calls sort.SliceStable, `SortFunc` and `Sort` call sort.Slice -/
+theorem sortStableFunc_calls_sliceStable :
     (bodyOf Expected.table (txt% "sort") (txt% "SortStableFunc")).map (·[3]?)
+      = some (some (txt% "sort.SliceStable($l0, func($l3, $l4) { return $p0($l0[$l3], $l0[$l4]) < 0 })")) ∧
+    (bodyOf Expected.table (txt% "sort") (txt% "SortFunc")).map (·[3]?)
       = some (some (txt% "sort.Slice($l0, func($l3, $l4) { return $p0($l0[$l3], $l0[$l4]) < 0 })")) ∧
-    (bodyOf Expected.repaired (txt% "sort") (txt% "SortStableFunc")).map (·[3]?)
-      = some (some (txt% "sort.SliceStable($l0, func($l3, $l4) { return $p0($l0[$l3], $l0[$l4]) < 0 })")) := by
-  decide
-
-/-- witness (F level): the byte flavour of `words` ranges over bytes, the string flavour over runes -/
-theorem words_flavours_differ_pinned :
-    (Expected.helperDiffs.find? (fun d => d.1 == txt% "words")).map (fun d => (d.2.1[3]?, d.2.2[3]?))
-    = some (some (txt% "range.runes _, $l1 in $p0 { if unicode.IsLetter($l1) || unicode.IsDigit($l1) { $l0.WriteRune($l1) } else { $l0.WriteRune(\" \") } }"),
-            some (txt% "range.bytes _, $l1 in $p0 { if unicode.IsLetter($l1) || unicode.IsDigit($l1) { $l0.WriteByte($l1) } else { $l0.WriteByte(\" \") } }")) := by
+    bodyOf Expected.table (txt% "sort") (txt% "Sort") = bodyOf Expected.table (txt% "sort") (txt% "SortFunc") := by
   decide
 
 /-! ### (a) parametric lifts -/
@@ -133,36 +118,17 @@ theorem parseBool_formatBool (b : Bool) : Strconv.parseBool (Strconv.formatBool 
 
 /-- string and byte flavour of `Ellipsis` return the same text, for every heap, window, length -/
 theorem ellipsis_flavours_agree (h : Bytes) (s : Text.Slice) (n : Int) (hv : s.Valid h) :
-    (Text.ellipsisB h s n).2.view (Text.ellipsisB h s n).1 = Text.ellipsis (s.view h) n :=
+    (Text.ellipsisB h s n).2.view h = Text.ellipsis (s.view h) n :=
   Text.ellipsisB_view h s n hv
 
-/-- FULL statement (false on the pinned tree): ∀ h s n, (ellipsisB h s n).1 = h.
-    Holds outside the truncating branch: -/
-theorem ellipsis_input_untouched_partial (h : Bytes) (s : Text.Slice) (n : Int)
-    (hc : ¬ (((Text.trimSpace (s.view h)).length : Int) > n ∧ 3 ≤ (Text.trimSpace (s.view h)).length ∧ 3 < n)) :
-    (Text.ellipsisB h s n).1 = h := Text.ellipsisB_heap_partial h s n hc
+/-- the byte helper never writes the caller's array: every heap, window (valid or not), length -/
+theorem ellipsis_input_untouched (h : Bytes) (s : Text.Slice) (n : Int) : (Text.ellipsisB h s n).1 = h :=
+  Text.ellipsisB_heap h s n
 
-/-- the repaired helper satisfies the full statement and returns the same text -/
-theorem ellipsis_fixed (h : Bytes) (s : Text.Slice) (n : Int) (hv : s.Valid h) :
-    (Text.ellipsisBFixed h s n).1 = h ∧ (Text.ellipsisBFixed h s n).2.view h = Text.ellipsis (s.view h) n :=
-  ⟨Text.ellipsisBFixed_heap h s n, Text.ellipsisBFixed_view h s n hv⟩
-
-/-- inside the truncating branch the pinned helper ALWAYS writes in place (never a fresh array), the
-    three dots land inside the input window, and nothing outside the window changes -/
-theorem ellipsis_write_in_window (h : Bytes) (s : Text.Slice) (n : Int) (hv : s.Valid h)
-    (hc : ((Text.trimSpace (s.view h)).length : Int) > n ∧ 3 ≤ (Text.trimSpace (s.view h)).length ∧ 3 < n) :
-    ∃ w, (Text.ellipsisB h s n).2 = .window w ∧ s.off ≤ w.off ∧ w.off + w.len ≤ s.off + s.len ∧ 3 ≤ w.len ∧
-      (Text.ellipsisB h s n).1 = Text.writeAt h (w.off + w.len - 3) Text.dots ∧
-      (Text.ellipsisB h s n).1.length = h.length ∧
-      (∀ i, i < s.off ∨ s.off + s.len ≤ i → (Text.ellipsisB h s n).1[i]? = h[i]?) ∧
-      (∀ j, j < 3 → (Text.ellipsisB h s n).1[w.off + w.len - 3 + j]? = some 46) :=
-  Text.ellipsisB_write_in_window h s n hv hc
-
-/-- witness: "  hello world  " with length 8 — the caller's array reads "  hello...rld  " afterwards -/
-theorem ellipsisB_writes_witness :
-    Text.ellipsisB [32,32,104,101,108,108,111,32,119,111,114,108,100,32,32] ⟨0, 15, 15⟩ 8
-      = ([32,32,104,101,108,108,111,46,46,46,114,108,100,32,32], .window ⟨2, 8, 13⟩) :=
-  Text.ellipsisB_writes_witness
+/-- what it returns is nil, a fresh array, or a sub-window of the input window -/
+theorem ellipsis_result_inside (h : Bytes) (s w : Text.Slice) (n : Int) (hv : s.Valid h)
+    (hw : (Text.ellipsisB h s n).2 = .window w) : w.Valid h ∧ s.off ≤ w.off ∧ w.off + w.len ≤ s.off + s.len :=
+  Text.ellipsisB_window_inside h s w n hv hw
 
 /-- Go's insertion sort (sort.Slice up to 12 elements) is the stable sort -/
 theorem sort_small_is_stable {α : Type} (big : List α → List α) (lt : α → α → Bool)
@@ -199,39 +165,40 @@ theorem sort_operator {α : Type} (sorter : List α → List α) (mode : SrcMode
     (runOp (Sort.sortM sorter) mode sub raw).out = Sort.sortSpec sorter (values raw) (ending raw) :=
   Sort.sort_spec sorter mode sub raw
 
-/-- FULL statement (false on the pinned tree): ∀ script, retained = delivered ∧ delivered.flatten = produced.
-    Concatenation holds when no read returns data together with an error: -/
-theorem reader_concat_partial (script : List Reader.Read) (h : ∀ rd ∈ script, rd.err.isSome → rd.data = []) :
-    (Reader.runIOReader script).delivered.flatten = Reader.produced script :=
-  Reader.ioReader_delivered_concat script h
+/-- `SortStableFunc` (sort.SliceStable, modelled by the stable sort): for every comparison that is a
+    total preorder, every raw script, the machine delivers the values sorted, as a permutation,
+    with equivalent values in their input order — all with the completion's context -/
+theorem sortStableFunc_stable {α : Type} (lt : α → α → Bool)
+    (trans : ∀ a b c, Sort.leOf lt a b → Sort.leOf lt b c → Sort.leOf lt a c)
+    (total : ∀ a b, (Sort.leOf lt a b || Sort.leOf lt b a) = true)
+    (mode : SrcMode) (sub : Ctx) (raw : List (Notif α)) :
+    (runOp (Sort.sortM (Sort.stableSort lt)) mode sub raw).out = Sort.sortSpec (Sort.stableSort lt) (values raw) (ending raw) ∧
+    ∀ l, (Sort.stableSort lt l).Perm l ∧ (Sort.stableSort lt l).Pairwise (fun a b => !lt b a) ∧
+      ∀ a, (Sort.stableSort lt l).filter (fun b => !lt a b && !lt b a) = l.filter (fun b => !lt a b && !lt b a) :=
+  ⟨Sort.sort_spec _ mode sub raw, fun l => stable_sort_spec lt trans total l⟩
 
-/-- … and the kept chunks are intact when at most one read carries data -/
-theorem reader_retained_partial (pre : List Reader.Read) (rd : Reader.Read) (rest : List Reader.Read)
-    (hpre : ∀ x ∈ pre, x.data = []) (hrest : ∀ x ∈ rest, x.data = []) :
-    (Reader.runIOReader (pre ++ rd :: rest)).retained = (Reader.runIOReader (pre ++ rd :: rest)).delivered :=
-  Reader.ioReader_retained_partial pre rd rest hpre hrest
+/-- concatenation of the emitted chunks = the bytes the reader produced: EVERY script of Read
+    results, data returned together with an error included -/
+theorem reader_concat (script : List Reader.Read) :
+    (Reader.runIOReader script).chunks.flatten = Reader.produced script := Reader.runIOReader_concat script
 
-/-- the repaired reader: every script -/
-theorem reader_fixed_concat (script : List Reader.Read) :
-    (Reader.ioReaderFixed [] script).1.flatten = Reader.produced script := Reader.ioReaderFixed_concat script
+/-- every chunk is a fresh array holding exactly the data of its read: what an observer keeps is
+    not changed by later reads into the buffer -/
+theorem reader_retained (script : List Reader.Read) :
+    (Reader.runIOReader script).chunks = Reader.handedOn script := Reader.runIOReader_chunks script
 
-theorem reader_shared_buffer_witness :
-    (Reader.runIOReader [⟨[1, 2], none⟩, ⟨[3], none⟩, ⟨[], some .eof⟩]).delivered = [[1, 2], [3]] ∧
-    (Reader.runIOReader [⟨[1, 2], none⟩, ⟨[3], none⟩, ⟨[], some .eof⟩]).retained = [[3, 2], [3]] := by decide
-
-theorem reader_eof_data_lost_witness :
-    (Reader.runIOReader [⟨[1, 2], none⟩, ⟨[3, 4], some .eof⟩]).delivered.flatten = [1, 2] ∧
-    Reader.produced [⟨[1, 2], none⟩, ⟨[3, 4], some .eof⟩] = [1, 2, 3, 4] := by decide
+/-- Complete iff the first error is io.EOF, Error otherwise -/
+theorem reader_terminal (script : List Reader.Read) :
+    (Reader.runIOReader script).term = Reader.termOf script := Reader.runIOReader_term script
 
 -- non-vacuity of the table theorems: the generated table is not empty and a changed row is rejected
 example : RoGen.Plugins.table.length = 72 := by decide
 def exRow (body : Txt) : Row :=
   { plugin := txt% "strconv", name := txt% "ParseInt", params := [txt% "int", txt% "int"], lift := .mapErr, setup := [], body := [body] }
 -- a constant where the parameter should be; a Map where a MapErr should be
-example : rowsMatch [exRow (txt% "return strconv.ParseInt($v, 10, $p1)")] [exRow (txt% "return strconv.ParseInt($v, $p0, $p1)")] = false := by
-  decide
-example : rowsMatch [{ exRow (txt% "return strconv.ParseInt($v, $p0, $p1)") with lift := .map }]
-    [exRow (txt% "return strconv.ParseInt($v, $p0, $p1)")] = false := by decide
+example : [exRow (txt% "return strconv.ParseInt($v, 10, $p1)")] ≠ [exRow (txt% "return strconv.ParseInt($v, $p0, $p1)")] := by decide
+example : [{ exRow (txt% "return strconv.ParseInt($v, $p0, $p1)") with lift := .map }] ≠
+    [exRow (txt% "return strconv.ParseInt($v, $p0, $p1)")] := by decide
 example : (txt% "ab") = 1 * 256 * 256 + 97 * 256 + 98 := by decide
 
 end Ro.C18
@@ -240,8 +207,7 @@ end Ro.C18
 #print axioms Ro.C18.plugins_rows_recognised
 #print axioms Ro.C18.helpers_agree
 #print axioms Ro.C18.helper_diffs_only
-#print axioms Ro.C18.sortStableFunc_is_sortFunc_pinned
-#print axioms Ro.C18.words_flavours_differ_pinned
+#print axioms Ro.C18.sortStableFunc_calls_sliceStable
 #print axioms Ro.C18.lift_map
 #print axioms Ro.C18.lift_mapErr
 #print axioms Ro.C18.lift_filter
@@ -251,17 +217,14 @@ end Ro.C18
 #print axioms Ro.C18.atoi_itoa_out_of_range
 #print axioms Ro.C18.parseBool_formatBool
 #print axioms Ro.C18.ellipsis_flavours_agree
-#print axioms Ro.C18.ellipsis_input_untouched_partial
-#print axioms Ro.C18.ellipsis_fixed
-#print axioms Ro.C18.ellipsis_write_in_window
-#print axioms Ro.C18.ellipsisB_writes_witness
+#print axioms Ro.C18.ellipsis_input_untouched
+#print axioms Ro.C18.ellipsis_result_inside
 #print axioms Ro.C18.sort_small_is_stable
 #print axioms Ro.C18.sort_sorted_perm
 #print axioms Ro.C18.stable_sort_spec
 #print axioms Ro.C18.sort_keys_determined
 #print axioms Ro.C18.sort_operator
-#print axioms Ro.C18.reader_concat_partial
-#print axioms Ro.C18.reader_retained_partial
-#print axioms Ro.C18.reader_fixed_concat
-#print axioms Ro.C18.reader_shared_buffer_witness
-#print axioms Ro.C18.reader_eof_data_lost_witness
+#print axioms Ro.C18.sortStableFunc_stable
+#print axioms Ro.C18.reader_concat
+#print axioms Ro.C18.reader_retained
+#print axioms Ro.C18.reader_terminal
